@@ -37,6 +37,11 @@ impl<T: Bits> Bits for Option<T> {
         }
     }
 }
+impl<A: Bits, B: Bits> Bits for (A, B) {
+    fn bits(&self) -> u64 {
+        self.0.bits().wrapping_mul(0x100000001b3) ^ self.1.bits().rotate_left(17)
+    }
+}
 impl<T: Bits> Bits for &T {
     fn bits(&self) -> u64 {
         (*self).bits()
